@@ -462,7 +462,9 @@ impl<'a> StrftimeItems<'a> {
         ch: Option<char>,
     ) -> (&'b str, Item<'b>) {
         if !self.lenient {
-            return (&original[*error_len..], Item::Error);
+            // Drop the rest of the input: an iterator that keeps its position here would
+            // yield `Item::Error` forever.
+            return ("", Item::Error);
         }
 
         if let Some(c) = ch {
